@@ -133,3 +133,30 @@ Theorem parse_group_colons line :
 Proof.
   intro H. apply parse_group_parts. rewrite split_on_count. destruct passwd_formats_pinned as (_ & _ & _ & _ & _ & _ & E). rewrite E. lia.
 Qed.
+
+(* ---- one entry per line ------------------------------------------------------------------------ *)
+Lemma take_short_all_len max l : forall r, take_short max l = (r, false) -> List.length r = List.length l.
+Proof.
+  induction l as [|x l IH]; intros r H; cbn [take_short] in H; [injection H as <-; reflexivity|].
+  destruct (nlen x + 1 <=? max)%N; [|discriminate]. destruct (take_short max l) as [r' t] eqn:E.
+  injection H as <- ->. cbn [List.length]. f_equal. apply IH. reflexivity.
+Qed.
+Lemma map_res_len {A B} (f : A -> res B) l : forall ys, map_res f l = Ok ys -> List.length ys = List.length l.
+Proof.
+  induction l as [|x l IH]; intros ys H; cbn [map_res] in H; [injection H as <-; reflexivity|].
+  destruct (f x) as [y| | |]; cbn [rbind] in H; try discriminate. destruct (map_res f l) as [ys'| | |]; cbn [rbind] in H; try discriminate.
+  injection H as <-. cbn [List.length]. f_equal. apply IH. reflexivity.
+Qed.
+Theorem load_file_count {A} (parse : string -> res A) max s l :
+  load_file parse max s = Ok l -> List.length l = text_line_count s.
+Proof.
+  unfold load_file, scan_lines, text_line_count. destruct (take_short max (raw_lines s)) as [lines toolong] eqn:E.
+  destruct (map_res parse lines) as [r| | |] eqn:M; cbn [rbind]; try discriminate. destruct toolong; [discriminate|].
+  intro H. injection H as <-. rewrite (map_res_len _ _ _ M). apply take_short_all_len with (max := max), E.
+Qed.
+Theorem entry_count_tags_iff {A} k text (rb : res (list A)) :
+  entry_count_tags k text rb = [] <-> (forall l, rb = Ok l -> List.length l = text_line_count text).
+Proof.
+  unfold entry_count_tags. destruct rb as [l| | |]; try (split; [intros _ l' H; discriminate|reflexivity]).
+  rewrite tag_if_nil, negb_false_iff, Nat.eqb_eq. split; [intros H l' E; injection E as <-; exact H|intro H; apply H; reflexivity].
+Qed.
